@@ -1101,6 +1101,11 @@ func genC15(r *Rng) *Scenario {
 			}
 			held++
 		}
+		if i == n/2 && r.chance(0.12) {
+			// a broker (or proxy) that sends CONNACK a second time in the middle of
+			// the connection, with requests outstanding
+			sc.Script = append(sc.Script, Out{Conn: 1, AtUs: t + 2, Kind: "pkt", Pkt: &Pkt{Type: TConnAck}, Class: "forged"})
+		}
 		// complete some requests while others stay outstanding
 		if len(pendingRelease) > 0 && r.chance(0.4) {
 			j := r.IntN(len(pendingRelease))
